@@ -538,6 +538,25 @@ func (eng *Engine) verifyFunction(tg target) *funcResult {
 		if nres == 1 {
 			env.vars["result"] = results[0]
 		}
+		// `shows` clauses first, then `ensures`, each proved under the ones before it (a chain of
+		// lemmas: proving A, then B assuming A, establishes both)
+		for i, e := range c.Shows {
+			g, err := env.goal(e.Expr)
+			if err != nil {
+				fc.specError(e, err)
+				continue
+			}
+			name := fmt.Sprintf("shows%d", i+1)
+			if e.Label != "" {
+				name = "shows-" + e.Label
+			}
+			if ob := fc.oblige(ret, "ensures", name, g, "postcondition (not exported to callers): "+e.Text, token.NoPos, true); ob != nil {
+				ob.Clause = e.Expr
+			}
+			if h, err := env.assumption(e.Expr); err == nil {
+				fc.assume(ret, h)
+			}
+		}
 		for i, e := range c.Ensures {
 			g, err := env.goal(e.Expr)
 			if err != nil {
@@ -551,19 +570,8 @@ func (eng *Engine) verifyFunction(tg target) *funcResult {
 			if ob := fc.oblige(ret, "ensures", name, g, "postcondition: "+e.Text, token.NoPos, true); ob != nil {
 				ob.Clause = e.Expr
 			}
-		}
-		for i, e := range c.Shows {
-			g, err := env.goal(e.Expr)
-			if err != nil {
-				fc.specError(e, err)
-				continue
-			}
-			name := fmt.Sprintf("shows%d", i+1)
-			if e.Label != "" {
-				name = "shows-" + e.Label
-			}
-			if ob := fc.oblige(ret, "ensures", name, g, "postcondition (not exported to callers): "+e.Text, token.NoPos, true); ob != nil {
-				ob.Clause = e.Expr
+			if h, err := env.assumption(e.Expr); err == nil {
+				fc.assume(ret, h)
 			}
 		}
 		fc.returnObligations(fn, c, rn)
